@@ -94,6 +94,22 @@ def tree_hash(root=None):
     return h.hexdigest()
 
 
+class locked:
+    """exclusive advisory lock on .cache/lock-<name>: harness crates share one work/target directory"""
+    def __init__(self, name):
+        os.makedirs(CACHE, exist_ok=True)
+        self.path = os.path.join(CACHE, "lock-" + name)
+
+    def __enter__(self):
+        self.f = open(self.path, "w")
+        fcntl.flock(self.f, fcntl.LOCK_EX)
+        return self
+
+    def __exit__(self, *a):
+        fcntl.flock(self.f, fcntl.LOCK_UN)
+        self.f.close()
+
+
 def facts_dir(config, root=None):
     """Return directory with fact files for `config`, extracting them if not cached."""
     ensure_driver()
@@ -101,6 +117,10 @@ def facts_dir(config, root=None):
     key = hashlib.sha256((_driver_src_hash() + config + repr(CONFIGS[config][0]) + tree_hash(root)).encode()).hexdigest()[:24]
     out = os.path.join(CACHE, "facts", key)
     if os.path.exists(os.path.join(out, "DONE")):
+        try:
+            os.utime(out)   # LRU: a directory in use is the newest
+        except OSError:
+            pass
         return out
     os.makedirs(os.path.join(CACHE, "facts"), exist_ok=True)
     lockf = open(os.path.join(CACHE, "lock-" + config), "w")
